@@ -1,7 +1,8 @@
 //! `conc`: several threads emitting and flushing through ONE shared StatsdClient into one
 //! buffered sink (BufferedSpyMetricSink, BufferedUdpMetricSink, BufferedUnixMetricSink).
 //!
-//! case:  C <S|U|X> <cap|d> <queue|u> <seq|free> <seed> <progs> <plan>
+//! case:  C <S|U|X|N> <cap|d> <queue|u> <seq|free> <seed> <progs> <plan>      (N = X on a non-blocking socket whose listener
+//!                                                                           is not read while the threads run)
 //!   progs = per-thread programs separated by '/', each a comma list of
 //!             C<hexkey>   client.count(key, <index of the op>)        (through the shared client)
 //!             E<hex>      emit of the given string on the shared sink (MetricSink::emit)
@@ -205,7 +206,7 @@ pub fn run_case(line: &str) -> String {
             };
             (Arc::new(sink), Recv::Udp(r))
         }
-        "X" => {
+        "X" | "N" => {
             let n = COUNTER.fetch_add(1, Ordering::Relaxed);
             let base = std::env::var("VERIF_TMP").unwrap_or_else(|_| "/tmp".to_string());
             let p = PathBuf::from(format!("{}/cadence-verif-conc-{}-{}.sock", base, std::process::id(), n));
@@ -213,6 +214,11 @@ pub fn run_case(line: &str) -> String {
             let r = UnixDatagram::bind(&p).expect("bind unix");
             r.set_nonblocking(true).unwrap();
             let s = UnixDatagram::unbound().expect("unbound");
+            if t[1] == "N" {
+                // non-blocking socket; the listener is not read until the threads are done: sends fail with WouldBlock
+                // once its queue is full
+                s.set_nonblocking(true).unwrap();
+            }
             let sink = match cap {
                 None => BufferedUnixMetricSink::from(&p, s),
                 Some(c) => BufferedUnixMetricSink::with_capacity(&p, s, c),
@@ -245,11 +251,13 @@ pub fn run_case(line: &str) -> String {
 
     // datagram collector for the socket sinks (keeps the receive queue short)
     let stop_rx = Arc::new(AtomicBool::new(false));
+    let hold_rx = Arc::new(AtomicBool::new(t[1] == "N"));
     let collected: Arc<Mutex<Vec<Vec<u8>>>> = Arc::new(Mutex::new(vec![]));
     let collector = match &recv {
         Recv::Spy(_) => None,
         Recv::Udp(_) | Recv::Unix(_, _) => {
             let stop = stop_rx.clone();
+            let hold = hold_rx.clone();
             let col = collected.clone();
             let sock: Box<dyn Fn(&mut [u8]) -> Option<usize> + Send> = match &recv {
                 Recv::Udp(s) => {
@@ -266,6 +274,10 @@ pub fn run_case(line: &str) -> String {
                 let mut buf = vec![0u8; 70_000];
                 let mut quiet = Instant::now();
                 loop {
+                    if hold.load(Ordering::SeqCst) {
+                        thread::sleep(Duration::from_micros(300));
+                        continue;
+                    }
                     match sock(&mut buf) {
                         Some(n) => {
                             col.lock().unwrap().push(buf[..n].to_vec());
@@ -401,6 +413,10 @@ pub fn run_case(line: &str) -> String {
                 per_thread_log.push(String::new());
             }
         }
+    }
+    hold_rx.store(false, Ordering::SeqCst);
+    if t[1] == "N" {
+        thread::sleep(Duration::from_millis(5));    // let the listener's queue drain before the final flush
     }
     // the final drop: client -> Fwd -> Tee -> sink (BufWriter::drop flushes what is left)
     let dropped = catch(move || {
